@@ -631,3 +631,48 @@ class CutLoopback(Loopback):
             self.full = len(self.outbuf)
             self.outbuf = self.outbuf[:self.cut]
         return Loopback.recv(self, n)
+
+
+class FaultySocket(Loopback):
+    """Loop-back socket of the pie client with one scripted I/O failure:
+       stage 'send'          sendall raises before anything is delivered
+             'send-partial'  sendall raises after `at` bytes were taken (the frame never completes)
+             'recv'          the request is processed, the first recv raises
+             'recv-partial'  `at` bytes of the response are delivered, then recv raises
+             'recv-eof'      `at` bytes of the response are delivered, then the peer closes
+             'close'         shutdown/close raise
+    """
+
+    def __init__(self, w, stage, exc, at=0):
+        Loopback.__init__(self, w)
+        self.stage, self.exc, self.at = stage, exc, at
+        self.delivered = 0
+
+    def sendall(self, data):
+        if self.stage == 'send':
+            raise self.exc
+        if self.stage == 'send-partial':
+            self.inbuf += bytes(data)[:self.at]
+            raise self.exc
+        Loopback.sendall(self, data)
+
+    def recv(self, n):
+        if self.stage == 'recv':
+            raise self.exc
+        if self.stage in ('recv-partial', 'recv-eof'):
+            if self.delivered >= self.at:
+                if self.stage == 'recv-eof':
+                    return b''
+                raise self.exc
+            n = min(n, self.at - self.delivered)
+        out = Loopback.recv(self, n)
+        self.delivered += len(out)
+        return out
+
+    def shutdown(self, how):
+        if self.stage == 'close':
+            raise self.exc
+
+    def close(self):
+        if self.stage == 'close':
+            raise self.exc
